@@ -362,6 +362,61 @@ func runC06(p *core.Prog, r *core.Report) {
 		r.Pass("C06.R6", "hash-path/errors", fmt.Sprintf("%d error-returning repository calls on the hash path inspected", n))
 	})
 	r.Guard("C06.R1", "closure/AncestorsOf", "ancestor closure", func() { checkClosureFn(p, r, "C06.R1", "ModuleGraph.AncestorsOf", 1, false) })
+	r.Guard("C06.R3", "module-fields/writers", "the request's modules are not rewritten on the server", func() {
+		// the server hashes the modules it received; the tools (info, decode) hash the package as built.  Both give the same
+		// identifier only if nothing between the request and the hash rewrites a hashed field of a module: the hashed
+		// fields of pbsubstreams.Module are written only while a package is BUILT (package manifest), never in the server
+		// packages.
+		if valueUse == nil {
+			core.Undecide("read-set not available")
+		}
+		mod := p.Named(pkgPBV1, "Module")
+		st := mod.Underlying().(*types.Struct)
+		n := 0
+		seenW := map[string]bool{}
+		for i := 0; i < st.NumFields(); i++ {
+			f := st.Field(i)
+			if !valueUse[f] || !f.Exported() {
+				continue
+			}
+			for _, w := range core.FieldWrites(p.RepoFunctions(), f) {
+				root := core.RootFn(w.Fn)
+				if p.IsTestFunc(root) || isGenerated(p, root) {
+					continue
+				}
+				if w.Kind == core.WAddrTake {
+					// &m.f handed out for reading (e.g. the lowest initial block returned as *uint64): a write through the
+					// escaped pointer would be a Store whose address is that pointer, in the function that receives it —
+					// the fields concerned are scalars read through the pointer only; not counted as a rewrite
+					continue
+				}
+				key := "Module." + f.Name() + "←" + core.FuncName(root)
+				if seenW[key] {
+					continue
+				}
+				seenW[key] = true
+				n++
+				pkg := ""
+				if root.Pkg != nil {
+					pkg = root.Pkg.Pkg.Path()
+				}
+				okPkg := strings.HasSuffix(pkg, "/"+pkgMani) || strings.Contains(pkg, "/pb/")
+				// literal construction of a fresh Module (Alloc in the same function) is not a rewrite
+				fresh := false
+				if st, ok := w.Instr.(*ssa.Store); ok {
+					if fa, ok := st.Addr.(*ssa.FieldAddr); ok {
+						if _, ok := fa.X.(*ssa.Alloc); ok {
+							fresh = true
+						}
+					}
+				}
+				r.Check(okPkg || fresh, "C06.R3", key, "a hashed field of a module is written only while a package is built (package manifest) or in a freshly constructed module, never rewritten on the server path between the request and the hash", fmt.Sprintf("%s of Module.%s in %s", w.Kind, f.Name(), core.FuncName(root)), p.Pos(core.InstrPos(w.Instr)))
+			}
+		}
+		if n == 0 {
+			core.Undecide("no writer of a hashed Module field found")
+		}
+	})
 	r.Guard("C06.R1", "unconditional", "hashed fields are hashed for every module", func() {
 		// the scalar fields of the identity are written as they are on EVERY path: no path substitutes a constant or another
 		// value for one kind of module (all leaves of the phi graph of the written value are loads of that field)
